@@ -427,11 +427,23 @@ func c14RunInBubble(t *testing.T, c c14Case, res *vfResult) {
 			select {
 			case <-time.After(300 * time.Millisecond):
 			case <-ctx.Done():
+				return false
 			}
 		}
 		return true
 	}
-	opts = append(opts, WithDefaultValidator(slowVal))
+	// two asynchronous validators per message, both honouring their context: on shutdown both report at once
+	slowVal2 := func(ctx context.Context, p peer.ID, m *Message) bool {
+		if strings.HasPrefix(string(m.Data), "slow") {
+			select {
+			case <-time.After(200 * time.Millisecond):
+			case <-ctx.Done():
+				return false
+			}
+		}
+		return true
+	}
+	opts = append(opts, WithDefaultValidator(slowVal), WithDefaultValidator(slowVal2))
 	if c.Discovery {
 		opts = append(opts, WithDiscovery(c14Disc{}))
 	}
